@@ -34,6 +34,13 @@ def run(ctx):
     ctx.mc("WrapMC", "WrapMC.cfg", consts={"MaxSteps": 8 if thorough else 6, "MaxMsgs": 2},
            workers=vf.NCPU, timeout=3000, deadlock=False)
 
+    # the deviation "a send hands over the sender's own message object" must be refuted by the same invariants
+    dev = ctx.tlc("WrapMC", "WrapMC_handover.cfg", consts={"MaxSteps": 5, "MaxMsgs": 2}, workers=4, timeout=600,
+                  deadlock=False)
+    if not dev.violated:
+        raise vf.Inconclusive("deviation HandsOverSendersMessage was not refuted by WrapMC:\n" + dev.out[-2000:])
+    ctx.cov["deviation_HandsOverSendersMessage_refuted_by"] = dev.violated
+
     gen = ctx.tlc("WrapGen", "WrapGen.cfg", consts={"NCases": ncases, "MaxMsgs": maxmsgs, "MaxLen": maxlen, "CxPct": 7, "DlPct": 15},
                   workers=4, timeout=1800)
     cases = sorted(gen.cases(), key=lambda c: c["n"])
@@ -126,7 +133,10 @@ def run(ctx):
                        "the grammar allows (also before the first server message), after which a "
                        "handler that has seen its context end may carry on with SetHeader/SendHeader/Send/SetTrailer while "
                        "the client reads Header()/Trailer(); the handler keeps writing to (and recycles) every metadata.MD it "
-                       "has handed over, the client writes to every MD it was handed; a blocked client op may stay pending "
+                       "has handed over, the client writes to every MD it was handed; every sender (client and handler) alters "
+                       "its message as soon as SendMsg has returned; a quarter of the calls that run to their end are made "
+                       "on a context without outgoing metadata (none, or only incoming metadata of an outer call); a "
+                       "blocked client op may stay pending "
                        "over server steps; plus every refused call (unknown method/service, each wrong stream shape).  Each script runs "
                        "through the wrapper and through grpc over bufconn (order of the two ops of a step and small pauses "
                        "drawn from the seed).  non-trivial = a message, metadata, a non-OK status or a context end occurs; "
